@@ -352,15 +352,21 @@ Next == Pick \/ Build \/ Order \/ AugStep \/ RoundEnd \/ Fix \/ DevStep \/ DevEn
 Spec == Init /\ [][Next]_vars /\ WF_vars(Next)
 
 \* ---- queries: what the harness observes per path ---------------------------------------
-RECURSIVE FlatOf(_, _, _, _, _)
-FlatOf(n, path, ns, ro, top) ==
+\* opcfg: an explicit config statement applies to the node from INSIDE an rpc, action or notification; RFC 7950 ignores
+\* config there and the statement of C12 leaves such nodes out (the harness does not compare ReadOnly for them)
+RECURSIVE FlatOp(_, _, _, _, _, _, _)
+FlatOf(n, path, ns, ro, top) == FlatOp(n, path, ns, ro, top, FALSE, FALSE)
+FlatOp(n, path, ns, ro, top, inop, opc) ==
   LET myns == IF n.ns # "" THEN n.ns ELSE ns
       myro == IF n.kind = "output" THEN TRUE ELSE IF n.cfg # "unset" THEN n.cfg = "false" ELSE ro
+      myop == inop \/ n.kind \in {"rpc", "action", "notification"}
+      myopc == opc \/ (myop /\ n.cfg # "unset")
       p == IF top THEN <<>> ELSE Append(path, n.name)
       me == IF top \/ (n.kind \in {"input", "output"} /\ n.kids = <<>>) THEN {}     \* unwritten, untouched input / output
             ELSE {[p |-> p, kind |-> n.kind, ro |-> myro, ns |-> myns, implicit |-> n.implicit,
-                   cfg |-> n.cfg, mand |-> n.mand, dflt |-> n.dflt, la |-> n.la, units |-> n.units, type |-> n.type, iff |-> n.iff]}
-  IN me \cup UNION {FlatOf(n.kids[k], p, myns, myro, FALSE) : k \in 1..Len(n.kids)}
+                   cfg |-> n.cfg, mand |-> n.mand, dflt |-> n.dflt, la |-> n.la, units |-> n.units, type |-> n.type, iff |-> n.iff,
+                   opcfg |-> myopc]}
+  IN me \cup UNION {FlatOp(n.kids[k], p, myns, myro, FALSE, myop, myopc) : k \in 1..Len(n.kids)}
 Flat(m) == FlatOf(trees[m], <<>>, P[m].ns, FALSE, TRUE)
 
 \* ---- Canon: the outcome under one fixed order, as a pure function ---------------------------
@@ -393,6 +399,9 @@ CanonPhases == Phases(P, [T |-> [m \in Mods |-> CanonBuilt[m].root], pend |-> [m
 CanonFixed == [T |-> CanonPhases.T,
                err |-> CanonPhases.err \/ \E m \in All : CanonPhases.pend[m] # <<>>]
 CanonFinal == DevAll(P, CanonSeq, CanonFixed)
+\* an augment was applied only after the implicit cases had been inserted: its target path goes through an implicit
+\* case, which the statement of C07 leaves out of its claim (C04 and C17 still speak about the resulting trees)
+LatePhaseUsed == \E m \in All : CanonLoop.pend[m] # CanonPhases.pend[m]
 CanonFlat(m) == FlatOf(CanonFinal.T[m], <<>>, P[m].ns, FALSE, TRUE)
 
 \* ---- declarative properties ---------------------------------------------------------------
@@ -424,7 +433,7 @@ Frame == Clean => \A m \in Mods :
             {f \in Flat(m) : ~Targeted(m, f.p)} = {f \in before : ~Targeted(m, f.p)}
 Termination == <>(pc = "done")
 
-Export == pc # "done" \/ PrintT(<<"CASE", ToJson([prog |-> prog, errs |-> errs,
+Export == pc # "done" \/ PrintT(<<"CASE", ToJson([prog |-> prog, errs |-> errs, late |-> LatePhaseUsed,
                                        flat |-> [m \in Mods |-> IF errs THEN {} ELSE Flat(m)]])>>)
 View == <<prog, trees, pending, work, i, progress, devleft, errs, pc, sincefix, nfix>>
 =============================================================================
